@@ -123,19 +123,35 @@ Qed.
 Lemma nv_qwrap : forall q n r sub, NV r -> NV sub -> NV (qwrap q n r sub).
 Proof. intros q n r sub Hr Hs. unfold qwrap. destruct (q && is_qualifier n); [destruct r|]; assumption. Qed.
 
-Lemma nv_struct : forall q fx x pk idx, NV (val_struct_q q fx pk idx x).
+Lemma diff_nil_len : forall fx pk idx attrs kids sub, val_node fx pk idx "diff" attrs kids sub = [] -> length pk = 3.
 Proof.
-  intros q fx. induction x as [ns n attrs kids IH|s|s] using xml_ind2; intros pk idx; cbn [val_struct_q]; try apply nv_nil.
+  intros fx pk idx attrs kids sub. unfold val_node. change (vclass_of "diff") with VDiff. cbn beta iota.
+  destruct (length pk =? 3) eqn:E; [intros _; now apply Nat.eqb_eq in E|cbn; discriminate].
+Qed.
+
+Lemma nv_dwrap : forall df pk n r, NV r -> (n = "diff" -> r = [] -> 3 <= length pk) -> NV (dwrap df pk n r).
+Proof.
+  intros df pk n r Hr Hlen. unfold dwrap. destruct (df && (n =? "diff")%string) eqn:E; [|exact Hr].
+  apply andb_true_iff in E. destruct E as [_ E]. apply String.eqb_eq in E.
+  destruct r; [|exact Hr]. specialize (Hlen E eq_refl).
+  destruct (nth_error pk 2) eqn:N; [apply nv_mm, nv_nil|]. apply nth_error_None in N. lia.
+Qed.
+
+Lemma nv_struct : forall df q fx x pk idx, NV (val_struct_d df q fx pk idx x).
+Proof.
+  intros df q fx. induction x as [ns n attrs kids IH|s|s] using xml_ind2; intros pk idx; cbn [val_struct_d]; try apply nv_nil.
   destruct (negb (ns =? MATHML_NS)%string); [apply nv_nil|].
   assert (Hsub : forall mk i, NV ((fix go (ks : list xml) (i : nat) {struct ks} : list rule :=
                     match ks with
                     | [] => []
-                    | k :: r => if is_mathml k then val_struct_q q fx mk i k ++ go r (S i) else go r i
+                    | k :: r => if is_mathml k then val_struct_d df q fx mk i k ++ go r (S i) else go r i
                     end) kids i)).
   { induction IH as [|k r Hk _ IHr]; intros mk i; [apply nv_nil|].
     destruct (is_mathml k); [apply nv_app; [apply Hk|apply IHr]|apply IHr]. }
-  apply nv_qwrap; [|apply Hsub].
-  apply nv_node. apply Hsub.
+  apply nv_dwrap.
+  - apply nv_qwrap; [|apply Hsub]. apply nv_node. apply Hsub.
+  - intros -> Hr. unfold qwrap in Hr. change (is_qualifier "diff") with false in Hr. rewrite Bool.andb_false_r in Hr.
+    rewrite (diff_nil_len _ _ _ _ _ _ Hr). lia.
 Qed.
 
 Lemma nv_struct_old_unused : True.
@@ -144,9 +160,9 @@ Proof.
   exact H.
 Qed.
 
-Lemma nv_struct_kids : forall q fx ks mk i, NV (val_struct_kids_q q fx mk ks i).
+Lemma nv_struct_kids : forall df q fx ks mk i, NV (val_struct_kids_d df q fx mk ks i).
 Proof.
-  intros q fx. induction ks as [|k r IH]; intros mk i; cbn; [apply nv_nil|].
+  intros df q fx. induction ks as [|k r IH]; intros mk i; cbn; [apply nv_nil|].
   destruct (is_mathml k); [apply nv_app; [apply nv_struct|apply IH]|apply IH].
 Qed.
 
@@ -167,10 +183,10 @@ Proof.
   intros [E|H]; [discriminate|tauto].
 Qed.
 
-Lemma nv_cicn : forall vars units x, NV (val_cicn vars units x).
+Lemma nv_cicn : forall cf vars units x, NV (val_cicn_gen cf vars units x).
 Proof.
-  intros vars units.
-  induction x as [ns n attrs kids IH|s|s] using xml_ind2; cbn [val_cicn]; try apply nv_nil.
+  intros cf vars units.
+  induction x as [ns n attrs kids IH|s|s] using xml_ind2; cbn [val_cicn_gen]; try apply nv_nil.
   apply nv_app.
   - destruct (is_mathml_el "cn" _).
     + unfold val_cn_units. pose proof (nv_attr_scan attrs "") as H.
@@ -178,15 +194,18 @@ Proof.
       apply nv_app; [exact H|].
       destruct (is_cellml_identifier u); [destruct (in_list u units); [apply nv_nil|apply nv_one; discriminate]|apply nv_one; discriminate].
     + destruct (is_mathml_el "ci" _); [|apply nv_nil].
-      unfold val_ci_name. destruct (str_is_empty _); [apply nv_nil|].
-      destruct (in_list _ vars); [apply nv_nil|apply nv_one; discriminate].
+      unfold val_ci_name_gen, val_ci_name. destruct cf.
+      * destruct (str_is_empty _); [apply nv_nil|].
+        destruct (in_list _ vars); [apply nv_nil|apply nv_one; discriminate].
+      * destruct (str_is_empty _); [apply nv_nil|].
+        destruct (in_list _ vars); [apply nv_nil|apply nv_one; discriminate].
   - induction IH as [|k r Hk _ IHr]; [apply nv_nil|apply nv_app; assumption].
 Qed.
 
 (** The validator's own three passes never call through a null handle, whatever the tree. *)
-Theorem val_null_safe : forall q fx vars units root, ~ In V_NULL_DEREF (val_math_env_gen2 q fx vars units root).
+Theorem val_null_safe : forall cf df q fx vars units root, ~ In V_NULL_DEREF (val_math_env_gen3 cf df q fx vars units root).
 Proof.
-  intros q fx vars units root. unfold val_math_env_gen2.
+  intros cf df q fx vars units root. unfold val_math_env_gen3.
   destruct (negb (is_mathml_el "math" root)); [apply nv_one; discriminate|].
   apply nv_app; [|apply nv_app; [apply nv_cicn|apply nv_struct_kids]].
   induction (kids_of root) as [|k r IH]; [apply nv_nil|apply nv_app; [apply nv_supported|exact IH]].
@@ -226,12 +245,18 @@ Definition w_cn_sep_in_degree : xml :=
   x_eq (m_apply "root" [m_el "degree" [Elem MATHML_NS "cn" cn_units [m_leaf "sep"]]; m_ci "y"]).
 
 (** the code as it is now ([fx] = false) *)
-Definition val_now (root : xml) : list rule := val_math_env_gen2 false false std_vars std_units root.
-Definition val_fixed (root : xml) : list rule := val_math_env_gen2 false true std_vars std_units root.
+Definition val_now (root : xml) : list rule := val_math_env_gen3 false false false false std_vars std_units root.
+Definition val_fixed (root : xml) : list rule := val_math_env_gen3 false false false true std_vars std_units root.
 (** with the repair of C04 (the arity pass descends into degree / logbase / bvar) *)
-Definition val_qfixed (root : xml) : list rule := val_math_env_gen2 true false std_vars std_units root.
+Definition val_qfixed (root : xml) : list rule := val_math_env_gen3 false false true false std_vars std_units root.
+(** with fixes/C01-diff-operand-ci.diff *)
+Definition val_dfixed (root : xml) : list rule := val_math_env_gen3 false true false false std_vars std_units root.
+(** the validator with every repair, and the analyser / generator with every repair *)
+Definition val_all (root : xml) : list rule := val_math_env_gen3 true true true true std_vars std_units root.
+Definition afix_all : afix := {| af_ci_comment := true; af_guards := true; af_gen_null := true |}.
+Definition afix_ci : afix := {| af_ci_comment := true; af_guards := false; af_gen_null := false |}.
 Definition gap (root : xml) (s : site) : Prop :=
-  val_now root = [] /\ ana_math root = Crash s.
+  val_now root = [] /\ ana_math_gen afix_none root = Crash s.
 
 Lemma gap_min_no_operand : gap w_min_no_operand S_NodeNull.           Proof. split; vm_compute; reflexivity. Qed.
 Lemma gap_max_no_operand : gap w_max_no_operand S_NodeNull.           Proof. split; vm_compute; reflexivity. Qed.
@@ -261,8 +286,31 @@ Lemma qualifier_fix_closes :
   /\ val_qfixed w_cn_empty_in_degree <> [] /\ val_qfixed w_cn_sep_in_degree <> [].
 Proof. repeat split; vm_compute; discriminate. Qed.
 
-Lemma gap_is_refutation : forall root s, gap root s -> val_now root = [] /\ ana root = None.
-Proof. intros root s [Hv Ha]. split; [exact Hv|]. unfold ana, ana_node_opt, ana_math in *. now rewrite Ha. Qed.
+(** commit 064d865 (both sides take the first non-comment child of ci): the witness is read, and still accepted *)
+Lemma ci_comment_fix_closes :
+  val_math_env_gen3 true false false false std_vars std_units w_ci_comment_first = []
+  /\ ana_gen afix_ci w_ci_comment_first <> None
+  /\ ana_gen afix_none w_ci_comment_first = None.
+Proof. repeat split; vm_compute; (reflexivity || discriminate). Qed.
+
+(** fixes/C01-diff-operand-ci.diff: the validator rejects diff of a non-ci *)
+Lemma diff_ci_fix_closes : val_dfixed w_diff_non_ci <> [] /\ val_now w_diff_non_ci = [].
+Proof. split; vm_compute; (reflexivity || discriminate). Qed.
+
+(** with every repair (committed and proposed) each of the fifteen witnesses is either rejected by the validator or read
+    by the analyser without a null dereference *)
+Definition closed (w : xml) : Prop := val_all w <> [] \/ ana_gen afix_all w <> None.
+Lemma all_repairs_close :
+  closed w_min_no_operand /\ closed w_max_no_operand /\ closed w_rem_no_operand /\ closed w_min_one_operand
+  /\ closed w_diff_non_ci /\ closed w_bare_ci /\ closed w_not_equation_min /\ closed w_empty_piecewise
+  /\ closed w_ci_comment_first /\ closed w_apply_without_operand /\ closed w_unvalidated_degree
+  /\ closed w_unvalidated_bvar /\ closed w_ci_empty_in_bvar /\ closed w_cn_empty_in_degree /\ closed w_cn_sep_in_degree.
+Proof.
+  repeat split; first [left; vm_compute; discriminate | right; vm_compute; discriminate].
+Qed.
+
+Lemma gap_is_refutation : forall root s, gap root s -> val_now root = [] /\ ana_gen afix_none root = None.
+Proof. intros root s [Hv Ha]. split; [exact Hv|]. unfold ana_gen. now rewrite Ha. Qed.
 
 (* ------------------------------------------------------------------------------------------------ std::stod in the power exponent *)
 
@@ -286,13 +334,63 @@ Definition w_pow_cn_range : xml := x_eq (m_apply "power" [m_ci "y"; m_cn_e "1" "
 Lemma stod_unguarded_refuted :
   (* an initial_value that names a variable *)
   (initial_value_accepted std_vars "y" = true /\ stod "y" = StodInvalidArgument
-   /\ val_now w_pow_iv_name = [] /\ pow_math_env std_vars [("z", "y")] w_pow_iv_name = Some StodInvalidArgument)
+   /\ val_now w_pow_iv_name = [] /\ pow_math_env_gen afix_none false std_vars [("z", "y")] w_pow_iv_name = Some StodInvalidArgument)
   (* an initial_value that is a CellML real outside the range of double *)
   /\ (initial_value_accepted std_vars "1e400" = true /\ stod "1e400" = StodOutOfRange
-      /\ pow_math_env std_vars [("z", "1e400")] w_pow_iv_name = Some StodOutOfRange)
+      /\ pow_math_env_gen afix_none false std_vars [("z", "1e400")] w_pow_iv_name = Some StodOutOfRange)
   (* an e-notation cn whose parts are fine one by one *)
-  /\ (val_now w_pow_cn_range = [] /\ pow_math_env std_vars [] w_pow_cn_range = Some StodOutOfRange).
+  /\ (val_now w_pow_cn_range = [] /\ pow_math_env_gen afix_none false std_vars [] w_pow_cn_range = Some StodOutOfRange).
 Proof. repeat split; vm_compute; reflexivity. Qed.
 
-Lemma pow_ok_example : pow_math_env std_vars [("z", "2")] w_pow_iv_name = None /\ ana w_pow_iv_name <> None.
+Lemma pow_ok_example :
+  pow_math_env_gen afix_none false std_vars [("z", "2")] w_pow_iv_name = None /\ ana_gen afix_none w_pow_iv_name <> None.
 Proof. split; vm_compute; [reflexivity|discriminate]. Qed.
+
+(** commit 82725c7 (convertToDouble instead of std::stod): the evaluation of an exponent never throws *)
+Lemma number_of_fixed : forall s e, number_of true s <> PvThrow e.
+Proof.
+  intros s e. unfold number_of. destruct (is_real s) eqn:R; [|discriminate].
+  pose proof (stod_real_partial s R) as H. destruct (stod s); try discriminate. congruence.
+Qed.
+
+Lemma power_value_a_fixed : forall ivs a avail e, power_value_a true ivs a avail <> PvThrow e.
+Proof.
+  intro ivs.
+  fix IH 1. intros [t v x l r] avail e. cbn [power_value_a].
+  destruct l as [cl|].
+  - pose proof (IH cl avail) as Hl. destruct (power_value_a true ivs cl avail) as [[|]|el]; [|discriminate|now specialize (Hl el)].
+    destruct r as [cr|].
+    + pose proof (IH cr true) as Hr. destruct (power_value_a true ivs cr true) as [[|]|er]; [|discriminate|now specialize (Hr er)].
+      destruct t; try (destruct (pv_unavailable_type _); discriminate);
+        try (destruct (str_is_empty _); [discriminate|apply number_of_fixed]); apply number_of_fixed.
+    + destruct t; try (destruct (pv_unavailable_type _); discriminate);
+        try (destruct (str_is_empty _); [discriminate|apply number_of_fixed]); apply number_of_fixed.
+  - destruct avail; [|discriminate].
+    destruct r as [cr|].
+    + pose proof (IH cr true) as Hr. destruct (power_value_a true ivs cr true) as [[|]|er]; [|discriminate|now specialize (Hr er)].
+      destruct t; try (destruct (pv_unavailable_type _); discriminate);
+        try (destruct (str_is_empty _); [discriminate|apply number_of_fixed]); apply number_of_fixed.
+    + destruct t; try (destruct (pv_unavailable_type _); discriminate);
+        try (destruct (str_is_empty _); [discriminate|apply number_of_fixed]); apply number_of_fixed.
+Qed.
+
+Theorem stod_fix_total :
+  (forall ivs a avail e, power_value true ivs a avail <> PvThrow e)
+  /\ (forall F vars ivs root, pow_math_env_gen F true vars ivs root = None).
+Proof.
+  assert (P : forall ivs a avail e, power_value true ivs a avail <> PvThrow e).
+  { intros ivs [a|] avail e; cbn [power_value]; [apply power_value_a_fixed|discriminate]. }
+  split; [exact P|].
+  assert (U : forall ivs a, units_pass_a true ivs a = None).
+  { intro ivs. fix IH 1. intros [t v x l r]. cbn [units_pass_a].
+    assert (Hl : match l with Some c => units_pass_a true ivs c | None => None end = None) by (destruct l; [apply IH|reflexivity]).
+    assert (Hr : match r with Some c => units_pass_a true ivs c | None => None end = None) by (destruct r; [apply IH|reflexivity]).
+    rewrite Hl, Hr.
+    destruct t; try reflexivity.
+    - pose proof (P ivs r true) as H. destruct (power_value true ivs r true); [reflexivity|now specialize (H r0)].
+    - destruct l as [[tl vl xl ll rl]|]; [|reflexivity]. destruct tl; try reflexivity.
+      pose proof (P ivs (Some (Ast DEGREE vl xl ll rl)) true) as H.
+      destruct (power_value true ivs (Some (Ast DEGREE vl xl ll rl)) true); [reflexivity|now specialize (H r0)]. }
+  intros F vars ivs root. unfold pow_math_env_gen. destruct (ana_math_env_gen F vars root) as [eqs|]; [|reflexivity].
+  induction eqs as [|a r IH]; [reflexivity|]. cbn [units_pass_all]. now rewrite U.
+Qed.
